@@ -1,33 +1,66 @@
 #!/usr/bin/env python3
-"""Runs each behaviour-preserving refactoring in /verif/refactored against the check of its own property (scratch worktree) and
-records the verdict: exit 0 = silent (required), exit 1 = FALSE ALARM, exit 2 = analysis-incomplete. Writes refactored/MATRIX.md."""
+"""Runs each behaviour-preserving refactoring in /verif/refactored against the checks (each in its own scratch worktree, in
+parallel) and records the verdict: exit 0 = silent (required), exit 1 = FALSE ALARM, exit 2 = analysis-incomplete.
+  ref_matrix.py [prefix ...]        the check of the refactoring's own property
+  ref_matrix.py --all [prefix ...]  every claimed check against every refactoring (cross effects)
+Without prefixes the result is written to refactored/MATRIX.md (own-property mode) / refactored/MATRIX_ALL.md (--all)."""
 import json, os, subprocess, sys, re
+from concurrent.futures import ThreadPoolExecutor
 V = os.path.dirname(os.path.dirname(os.path.abspath(__file__)))
-rows = []
-only = sys.argv[1:]
+args = sys.argv[1:]
+ALL = '--all' in args
+only = [a for a in args if not a.startswith('--')]
+claimed = [c['property_id'] for c in json.load(open(os.path.join(V, 'MANIFEST.json')))['checks']]
+VERD = {0: 'silent (exit 0)', 1: 'FALSE ALARM (exit 1)', 2: 'analysis-incomplete (exit 2)'}
+
+
+def run_one(d):
+    sd = os.path.join(V, 'refactored', d)
+    prop = d.split('-')[0]
+    props = claimed if ALL else [prop]
+    r = subprocess.run([os.path.join(V, 'bin', 'try_patch.sh'), os.path.join(sd, 'patch.diff')] + props, stdout=subprocess.PIPE, stderr=subprocess.STDOUT, universal_newlines=True)
+    return d, r.returncode, r.stdout
+
+
+dirs = []
 for d in sorted(os.listdir(os.path.join(V, 'refactored'))):
     sd = os.path.join(V, 'refactored', d)
     if not os.path.isdir(sd) or not os.path.exists(os.path.join(sd, 'patch.diff')):
         continue
     if only and not any(d.startswith(o) for o in only):
         continue
-    prop = d.split('-')[0]
-    meta = json.load(open(os.path.join(sd, 'meta.json')))
-    r = subprocess.run([os.path.join(V, 'bin', 'try_patch.sh'), os.path.join(sd, 'patch.diff'), prop], stdout=subprocess.PIPE, stderr=subprocess.STDOUT, universal_newlines=True)
-    out = r.stdout
-    if 'PATCH DOES NOT APPLY' in out or 'patch does not apply' in out:
-        verdict, rules = 'patch does not apply to HEAD', []
-    else:
-        rules = sorted(set(re.findall(r'^  rule      (\S+)', out, re.M))) + sorted(set(re.findall(r'^UNDECIDED property=\S+ rule=(\S+)', out, re.M)))
-        verdict = {0: 'silent (exit 0)', 1: 'FALSE ALARM (exit 1)', 2: 'analysis-incomplete (exit 2)'}.get(r.returncode, 'exit %d' % r.returncode)
-    meta['check_verdict'] = {'verdict': verdict, 'rules': rules}
-    json.dump(meta, open(os.path.join(sd, 'meta.json'), 'w'), indent=1)
-    rows.append((d, str(meta.get('summary', ''))[:120].replace('|', '/').replace('\n', ' '), verdict, ', '.join(rules)))
-    print(d, verdict, rules)
-    if r.returncode != 0:
-        print('\n'.join(l for l in out.split('\n') if 'detail' in l or 'UNDECIDED' in l or 'BROKEN' in l)[:1500])
+    dirs.append(d)
+rows = []
+with ThreadPoolExecutor(max_workers=6 if ALL else 10) as ex:
+    for d, rc, out in ex.map(run_one, dirs):
+        sd = os.path.join(V, 'refactored', d)
+        meta = json.load(open(os.path.join(sd, 'meta.json')))
+        if 'PATCH DOES NOT APPLY' in out or 'patch does not apply' in out:
+            verdict, rules = 'patch does not apply to HEAD', []
+        else:
+            rules = sorted(set(re.findall(r'^  rule      (\S+)', out, re.M))) + sorted(set(re.findall(r'^UNDECIDED property=\S+ rule=(\S+)', out, re.M)))
+            verdict = VERD.get(rc, 'exit %d' % rc)
+        if ALL:
+            alarms = sorted(set(re.findall(r'^VIOLATION property=(\S+)', out, re.M)))
+            incomplete = sorted(set(re.findall(r'^UNDECIDED property=(\S+)', out, re.M)) | set(re.findall(r'^ANALYSIS-BROKEN property=(\w+)', out, re.M)))
+            meta['all_checks_verdict'] = {'verdict': verdict, 'false_alarms_in': alarms, 'incomplete_in': incomplete}
+            rows.append((d, verdict, ', '.join(alarms), ', '.join(incomplete)))
+            print(d, verdict, 'alarms:', alarms, 'incomplete:', incomplete)
+        else:
+            meta['check_verdict'] = {'verdict': verdict, 'rules': rules}
+            rows.append((d, str(meta.get('summary', ''))[:120].replace('|', '/').replace('\n', ' '), verdict, ', '.join(rules)))
+            print(d, verdict, rules)
+        json.dump(meta, open(os.path.join(sd, 'meta.json'), 'w'), indent=1)
+        if rc != 0:
+            print('\n'.join(l for l in out.split('\n') if 'detail' in l or 'UNDECIDED' in l or 'BROKEN' in l or l.startswith('VIOLATION'))[:1500])
 if not only:
-    with open(os.path.join(V, 'refactored', 'MATRIX.md'), 'w') as f:
-        f.write('# Behaviour-preserving refactorings vs. checks (negative controls)\n\nEach row: a refactoring produced by an independent sub-agent (given only the property text) that compiles, keeps 28/28 tests green\nand preserves the property. The property\'s check must stay silent on it.\n\n| refactoring | change | verdict | rules involved |\n|---|---|---|---|\n')
-        for r_ in rows:
-            f.write('| %s | %s | %s | %s |\n' % r_)
+    if ALL:
+        with open(os.path.join(V, 'refactored', 'MATRIX_ALL.md'), 'w') as f:
+            f.write('# Behaviour-preserving refactorings vs. every claimed check (cross effects)\n\n| refactoring | worst verdict | false alarms in | incomplete in |\n|---|---|---|---|\n')
+            for r_ in rows:
+                f.write('| %s | %s | %s | %s |\n' % r_)
+    else:
+        with open(os.path.join(V, 'refactored', 'MATRIX.md'), 'w') as f:
+            f.write('# Behaviour-preserving refactorings vs. checks (negative controls)\n\nEach row: a refactoring produced by an independent sub-agent (given only the property text) that compiles, keeps 28/28 tests green\nand preserves the property. The property\'s check must stay silent on it.\n\n| refactoring | change | verdict | rules involved |\n|---|---|---|---|\n')
+            for r_ in rows:
+                f.write('| %s | %s | %s | %s |\n' % r_)
